@@ -79,10 +79,10 @@ def _dashmap_for(iter_text, pat):
     setup = "let verif_keys = %s.verif_keys(); let mut verif_i: usize = 0;" % mp
     cond = "verif_i < verif_keys.len()"
     guard = "%s.verif_guard%s(&verif_keys[verif_i])" % (mp, "_mut" if mut else "")
-    bind = "let %s = %s; verif_i += 1;" % (pat, guard)
+    bind = "let ghost verif_map = %s@; let %s = %s; verif_i += 1;" % (mp, pat, guard)
     if m.group(3):
         body = _re.sub(r"\b%s\b" % m.group(3), "(&%s)" % name, m.group(4))
-        bind += " if !(%s) { continue; }" % body.replace(" . ", ".").replace("( ", "(").replace(" )", ")").replace("& ", "&")
+        bind += " if !(%s) { @@SKIP@@ continue; }" % body.replace(" . ", ".").replace("( ", "(").replace(" )", ")").replace("& ", "&")
     return setup, cond, bind
 
 
@@ -120,6 +120,7 @@ BITCASK_ONLY = [
     "impl Writer::fn put", "impl Writer::fn delete", "impl Writer::fn write", "impl Writer::fn new_active_datafile", "impl Writer::fn sync",
     "impl Reader::fn get",
     "fn rebuild_storage", "fn populate_keydir_with_hintfile", "fn populate_keydir_with_datafile",
+    "impl Writer::fn merge", "impl Context::fn fileids_to_merge",
 ]
 
 UNITS["store"] = {
@@ -137,6 +138,7 @@ UNITS["store"] = {
         ("raw", "prelude/store_entry_views.rs", "prelude", {"mod": "bitcask"}),
         ("raw", "lemmas/store_lemmas.rs", "lemma", {"mod": "bitcask"}),
         ("raw", "lemmas/recover_lemmas.rs", "lemma", {"mod": "bitcask"}),
+        ("raw", "lemmas/merge_lemmas.rs", "lemma", {"mod": "bitcask"}),
         ("repo", "src/storage/bitcask.rs", {"mod": "bitcask", "rules": STORE_RULES, "only": BITCASK_ONLY}),
     ],
     "mod_uses": {
